@@ -9,7 +9,7 @@ trap 'rm -rf "$W"' EXIT
 rsync -a --exclude .git /repo/ "$W/repo/"
 ( cd "$W/repo" && patch -p1 -s < "$PATCH" ) || { echo "MUTANT $1: patch does not apply"; exit 3; }
 ( cd "$W/repo" && go build ./... && go test -count=1 ./... >"$W/test.log" 2>&1 ) || { echo "MUTANT $(basename $1): does not build or fails the suite"; tail -5 "$W/test.log"; exit 3; }
-out=$(VERIF_REPO="$W/repo" VERIF_ROOT_OVERRIDE= "$VERIF_ROOT/bin/check" "$PROP" "$TIER" 2>&1); rc=$?
+out=$(VERIF_REPO="$W/repo" VERIF_EVIDENCE_DIR="$W/evidence" "$VERIF_ROOT/bin/check" "$PROP" "$TIER" 2>&1); rc=$?
 echo "MUTANT $(basename $1) property=$PROP tier=$TIER exit=$rc $(echo "$out" | grep -m1 -A2 '^VIOLATION' | tr '\n' ' ' | cut -c1-300)"
 [ -n "${MUTANT_VERBOSE:-}" ] && echo "$out" | tail -20
 exit $rc
